@@ -153,25 +153,69 @@ def call_args(text, start):
 # move_fd_internal
 
 
-def classify_threshold(x, ev, cond, fns, param):
-    """`cond` is the condition under which the descriptor is returned unchanged; value of N in `fd >= N`"""
+def classify_comparison(ev, cond, param):
+    """`cond` as a predicate on the descriptor parameter: ("ge", N) for `fd >= N`, ("lt", N) for `fd < N`,
+    whichever way it is written (`fd > N-1`, `N <= fd`, `!(fd < N)`, …); None when it is not such a test"""
     c = cond.strip()
     while c.startswith("(") and matching(c, 0, "(", ")") == len(c) - 1:
         c = c[1:-1].strip()
+    m = re.fullmatch(r"!\s*\((.*)\)", c, re.S)
+    if m and matching(c, c.index("("), "(", ")") == len(c) - 1:
+        inner = classify_comparison(ev, m.group(1), param)
+        if inner is None:
+            return None
+        return ("lt" if inner[0] == "ge" else "ge", inner[1])
     v = r"[A-Za-z_][A-Za-z_0-9]*(?:\s*\.\s*0)?"
-    m = re.fullmatch(rf"({v})\s*>=\s*(.+)", c)
-    if m and re.sub(r"\s|\.0", "", m.group(1)) == param:
-        return ev.value(m.group(2))
-    m = re.fullmatch(rf"(.+?)\s*<=\s*({v})", c)
-    if m and re.sub(r"\s|\.0", "", m.group(2)) == param:
-        return ev.value(m.group(1))
-    m = re.fullmatch(rf"({v})\s*>\s*(.+)", c)
-    if m and re.sub(r"\s|\.0", "", m.group(1)) == param:
-        return ev.value(m.group(2)) + 1
-    m = re.fullmatch(rf"!\s*\(\s*({v})\s*<\s*(.+)\)", c)
-    if m and re.sub(r"\s|\.0", "", m.group(1)) == param:
-        return ev.value(m.group(2))
+    is_param = lambda t: re.sub(r"\s|\.0", "", t) == param
+    m = re.fullmatch(rf"({v})\s*(>=|<=|>|<)\s*(.+)", c, re.S)
+    if m and is_param(m.group(1)):
+        n = ev.value(m.group(3))
+        return {">=": ("ge", n), ">": ("ge", n + 1), "<": ("lt", n), "<=": ("lt", n + 1)}[m.group(2)]
+    m = re.fullmatch(rf"(.+?)\s*(>=|<=|>|<)\s*({v})", c, re.S)
+    if m and is_param(m.group(3)):
+        n = ev.value(m.group(1))
+        return {"<=": ("ge", n), "<": ("ge", n + 1), ">": ("lt", n), ">=": ("lt", n + 1)}[m.group(2)]
     return None
+
+
+def classify_threshold(x, ev, cond, fns, param, negated=False):
+    """N such that the descriptor is returned unchanged iff `fd >= N`; `cond` is the condition of the branch
+    that returns it unchanged (`negated`: of the other branch).  None when it cannot be classified."""
+    r = classify_comparison(ev, cond, param)
+    if r is None:
+        return None
+    kind, n = r
+    if negated:
+        kind = "lt" if kind == "ge" else "ge"
+    return n if kind == "ge" else None
+
+
+def if_else_parts(text):
+    """every `if COND { A } [else { B }]` of `text` (not `else if`, not `if let`): (COND, A, B or None, end)"""
+    out = []
+    for m in re.finditer(r"\bif\s+(?!let\b)", text):
+        i, depth = m.end(), 0
+        while i < len(text) and not (text[i] == "{" and depth == 0):
+            if text[i] in "([":
+                depth += 1
+            elif text[i] in ")]":
+                depth -= 1
+            i += 1
+        if i >= len(text):
+            continue
+        j = matching(text, i, "{", "}")
+        if j < 0:
+            continue
+        cond, then = text[m.end():i], text[i + 1:j]
+        els, end = None, j + 1
+        me = re.match(r"\s*else\s*\{", text[j + 1:])
+        if me:
+            k0 = j + 1 + me.end() - 1
+            k1 = matching(text, k0, "{", "}")
+            if k1 >= 0:
+                els, end = text[k0 + 1:k1], k1 + 1
+        out.append((cond, then, els, end))
+    return out
 
 
 def move_fd_internal_facts(x, ev, src):
@@ -184,24 +228,33 @@ def move_fd_internal_facts(x, ev, src):
         x.fail("move_fd_internal: cannot tell which parameter is the descriptor")
     param = pm[0]
 
-    # --- the "already internal" test: `if COND { return Ok(from) }` or `if COND { Ok(from) } else {…}`
-    m = re.search(r"\bif\s+(.+?)\s*\{\s*(?:return\s+)?Ok\s*\(\s*" + param + r"\s*\)\s*;?\s*\}", body, re.S)
-    if not m:
-        x.fail("move_fd_internal: cannot find the test under which the descriptor is returned unchanged")
-    cond = m.group(1)
-    thr = classify_threshold(x, ev, cond, fns, param)
+    # --- the "already internal" test, in either shape: `if COND { return Ok(from); } …rest…`,
+    #     `if COND { Ok(from) } else { …move… }`, `if NOT-COND { …move… } else { Ok(from) }`
+    unchanged = re.compile(r"\s*(?:return\s+)?Ok\s*\(\s*" + param + r"\s*\)\s*;?\s*")
+    found = []
+    for cond, then, els, _ in if_else_parts(body):
+        if unchanged.fullmatch(then):
+            found.append((cond, False))
+        elif els is not None and unchanged.fullmatch(els):
+            found.append((cond, True))
+    if len(found) != 1:
+        x.fail("move_fd_internal: cannot find the (one) test under which the descriptor is returned unchanged "
+               f"({len(found)} candidates)")
+    cond, negated = found[0]
+    thr = classify_threshold(x, ev, cond, fns, param, negated)
     if thr is None:
-        # one level of helper: `name(from)` with `fn name(p: Fd) -> bool { p >= N }`
-        hm = re.fullmatch(r"\s*([a-z_][a-z_0-9]*)\s*\(\s*" + param + r"\s*\)\s*", cond)
-        if hm and hm.group(1) in fns:
-            hp, hb = fns[hm.group(1)]
+        # one level of helper: `name(from)` / `!name(from)` with `fn name(p: Fd) -> bool { p >= N }`
+        hm = re.fullmatch(r"\s*(!?)\s*([a-z_][a-z_0-9]*)\s*\(\s*" + param + r"\s*\)\s*", cond)
+        if hm and hm.group(2) in fns:
+            hp, hb = fns[hm.group(2)]
             hpm = re.findall(r"([a-z_][a-z_0-9]*)\s*:\s*Fd\b", hp)
             expr = hb.strip().rstrip(";").strip()
             expr = re.sub(r"^return\s+", "", expr)
             if len(hpm) == 1:
-                thr = classify_threshold(x, ev, expr, fns, hpm[0])
+                thr = classify_threshold(x, ev, expr, fns, hpm[0], negated != (hm.group(1) == "!"))
     if thr is None:
-        x.fail(f"move_fd_internal: cannot classify the test `{cond.strip()}` (expected `fd >= CONST` or a helper that is)")
+        x.fail(f"move_fd_internal: cannot classify the test `{cond.strip()}`"
+               f"{' (of the other branch)' if negated else ''} as `fd >= CONST` for the unchanged branch")
 
     # --- the function that holds the dup: move_fd_internal itself or one private helper it calls
     def find_dup(text):
@@ -404,6 +457,23 @@ def heredoc_facts(x):
     return cloexec, closes
 
 
+def overwrite_order(x, fns):
+    """`open_and_overwrite`: is the prepared descriptor duplicated onto the target BEFORE it is closed
+    (`dup2(fd, target)` then `fd_spec.close(…)`)?  The other order would duplicate a closed descriptor."""
+    if "open_and_overwrite" not in fns:
+        x.fail("anchor not found: fn open_and_overwrite in yash-semantics/src/redir.rs")
+    body = fns["open_and_overwrite"][1]
+    vm = re.search(r"\b([a-z_][a-z_0-9]*)\s*\.\s*as_fd\s*\(\s*\)", body)
+    if not vm:
+        x.fail("open_and_overwrite: cannot find `<spec>.as_fd()` — shape not understood")
+    spec = vm.group(1)
+    d = [m.start() for m in re.finditer(r"\.\s*dup2\s*\(", body)]
+    c = [m.start() for m in re.finditer(r"\b" + spec + r"\s*\.\s*close\s*\(", body)]
+    if len(d) != 1 or len(c) != 1:
+        x.fail(f"open_and_overwrite: expected exactly one `.dup2(` and one `{spec}.close(` (found {len(d)}, {len(c)})")
+    return d[0] < c[0]
+
+
 def builtin_types(x, names):
     src = strip_comments_keep_strings(x.read("yash-builtin/src/lib.rs"))
     out = {}
@@ -523,6 +593,7 @@ def redir_consts(x):
     dot_args, dot_cloexec = dot_open_facts(x)
     btypes = builtin_types(x, ["exec", ":", ".", "command"])
     here_cloexec, here_closes = heredoc_facts(x)
+    dup2_first = overwrite_order(x, fns)
     b = lambda v: "true" if v else "false"
     lines = [
         "/-- `yash_env::io::MIN_INTERNAL_FD` -/",
@@ -573,6 +644,8 @@ def redir_consts(x):
         f"def hereDocCloexec : Bool := {b(here_cloexec)}",
         "/-- `here_doc::open_fd`: is the descriptor closed when writing the content fails -/",
         f"def hereDocClosesOnFailure : Bool := {b(here_closes)}",
+        "/-- `open_and_overwrite`: `dup2` onto the target happens before the prepared descriptor is closed -/",
+        f"def overwriteDup2BeforeClose : Bool := {b(dup2_first)}",
         "",
         "/-- `yash_env::builtin::Type` -/",
         "inductive BuiltinType where | special | mandatory | elective | extension | substitutive",
